@@ -55,20 +55,14 @@ func resString(r TxResult) M {
 
 var noRes = M{"cs": "", "code": -1, "gasUsed": 0, "gasWanted": 0, "data": "", "events": ""}
 
-// nodeChain: fresh chain stopped right after the commit of block 1 (the specification's h = 0).
+// nodeChain: fresh chain stopped right after the commit of block 1 (the specification's h = 0).  The process has NOT been restarted:
+// the twin built from it is a node that never stopped (a restart that writes to the stores would otherwise be hidden by doing it on both sides).
 func nodeChain(opts GenesisOpts, disk bool) (*Chain, error) {
-	c, err := NewChain(opts) // runs block 1 and begins block 2 on a MemDB
-	if err != nil {
-		return nil, err
+	if disk {
+		return nil, fmt.Errorf("disk db not wired")
 	}
-	if !disk {
-		// drop the begun block 2: re-open at the committed height 1
-		if err := c.Restart(); err != nil {
-			return nil, err
-		}
-		return c, nil
-	}
-	return c, fmt.Errorf("disk db not wired")
+	opts.StopAfterBlock1 = true
+	return NewChain(opts)
 }
 
 // nodeChainFor: nodeChain plus the job's populating block (model height 0 is then the commit of that block).
